@@ -385,6 +385,9 @@ func frameObligations(ex *Exec, fx *fnExec, entry, out *State, locs []Loc) {
 				wholeKey[k] = true
 			}
 		case "elems":
+			if loc.Exact {
+				fail("modifies onlyelems/onlyspare: only for trusted contracts (the index range is not checked on the callee's side)")
+			}
 			et := loc.Slice.T.Underlying().(*types.Slice).Elem()
 			for k := range layout(et) {
 				allowed[elemKey(et, k)] = append(allowed[elemKey(et, k)], loc.Slice.C[0])
